@@ -138,6 +138,7 @@ type runOpts struct {
 	Header         *options.HeaderOption
 	Lang           string
 	LocationName   string
+	LocationRaw    bool            // hand LocationName to the conf generator as it is (also when empty)
 	Formats        []format.Format // input formats (default CSV)
 	OutFormats     []format.Format // conf output formats (default JSON)
 	Pretty         bool
@@ -204,7 +205,7 @@ func (w *workspace) genConf(o runOpts, paths ...string) error {
 	}
 	setters := []options.Option{options.Conf(co), options.Log(quietLog), options.Lang(lang)}
 	loc := o.LocationName
-	if loc == "" {
+	if loc == "" && !o.LocationRaw {
 		loc = "UTC"
 	}
 	setters = append(setters, options.LocationName(loc))
